@@ -35,7 +35,8 @@ Lemma mark_decided : forall s rl r, decided (mark s rl r) = decided s. Proof. in
 Global Hint Rewrite mark_round mark_input mark_ppj mark_prepR mark_prepV mark_prepJ mark_cfr mark_qcommit mark_qcommitV
   mark_buffer mark_resends mark_timer mark_started mark_dead mark_decided : st.
 
-Ltac st := unfold decided in *; autorewrite with st in *; simpl in *.
+Definition f_prep (s : state) : bmsg -> bool := f_trv Prepare (prepR s) (prepV s).
+Ltac st := unfold decided, f_prep in *; simpl in *; repeat (progress (autorewrite with st in *; simpl in *)).
 
 (* what membership of a rule in rules_of says *)
 Lemma rules_of_inv : forall p s m rl, existsb (rule_eqb rl) (rules_of p s m) = true ->
